@@ -49,6 +49,8 @@ func shortPkgType(t types.Type) string {
 // frame. Returns true when a frame was pushed (the machine continues in the callee).
 func (x *Exec) call(st *State, fr *Frame, at ssa.Instruction, cc *ssa.CallCommon, fnv Val, args []Val, bind func(Val)) bool {
 	name, target := x.calleeName(cc, fnv)
+	st.callCounts["n:"+name]++
+	x.noteContinuesAfter(st, fr, name)
 
 	// interface invoke with statically known dynamic type -> concrete method
 	if cc.IsInvoke() && fnv.Dyn != nil && fnv.Dyn.Typ != nil {
@@ -420,6 +422,19 @@ func (x *Exec) callAbstract(st *State, fr *Frame, at ssa.Instruction, name strin
 			}
 		}
 	}
+	// a closure handed to an abstract callee may be run any number of times: forget the variables it
+	// captures by reference
+	for _, a := range args {
+		if a.Clo != nil {
+			for _, b := range a.Clo.Bindings {
+				if b.T.Sort == SRef && b.Typ != nil {
+					if _, ok := b.Typ.Underlying().(*types.Pointer); ok {
+						x.havocObject(st, b)
+					}
+				}
+			}
+		}
+	}
 	if !pureHeap {
 		for _, a := range args {
 			if a.Typ == nil {
@@ -553,6 +568,9 @@ func (x *Exec) applyContract(st *State, fr *Frame, at ssa.Instruction, name stri
 	sc.oldHeap = copyHeap(st.heap)
 	sc.oldWorlds = copyWorlds(st.worlds)
 	sc.world = 0
+	if fn != nil {
+		sc.pkg = fn.Pkg
+	}
 	for _, a := range args {
 		if a.World > 0 {
 			sc.world = a.World - 1
@@ -562,7 +580,7 @@ func (x *Exec) applyContract(st *State, fr *Frame, at ssa.Instruction, name stri
 	for i, cl := range c.Of("requires") {
 		t, err := x.evalBool(st, nil, cl.E, sc)
 		if err != nil {
-			x.unsupported("requires %d of callee %s: %v", i, name, err)
+			x.Abstracted[fmt.Sprintf("callee clause not usable at call site: requires %d of %s (%v)", i, name, err)]++
 			continue
 		}
 		lbl := "pre." + methodOf(name) + "." + labelOr(cl, "req")
@@ -623,7 +641,7 @@ func (x *Exec) applyContract(st *State, fr *Frame, at ssa.Instruction, name stri
 	for i, cl := range c.Of("ensures") {
 		t, err := x.evalBool(st, nil, cl.E, sc)
 		if err != nil {
-			x.unsupported("ensures %d of callee %s: %v", i, name, err)
+			x.Abstracted[fmt.Sprintf("callee clause not usable at call site: ensures %d of %s (%v)", i, name, err)]++
 			continue
 		}
 		st.assume(t)
@@ -1224,4 +1242,41 @@ func (x *Exec) siteOrdinal(fn *ssa.Function, at ssa.Instruction, pat string) int
 		}
 	}
 	return -1
+}
+
+// ---------- continues_after (loop clause) ----------
+//
+// `loop N continues_after <callee>`: once the callee has been called in an iteration of loop N, the
+// function does not return before that iteration ends — a failure of the callee must not cut the
+// sweep short. Realised as: a top-level return reached while the flag is set must be infeasible.
+
+func (x *Exec) noteContinuesAfter(st *State, fr *Frame, callee string) {
+	if x.TopC == nil || len(st.frames) == 0 {
+		return
+	}
+	for _, cl := range x.TopC.Clauses {
+		if cl.Kind == "continues_after" && len(cl.Args) > 0 && matchCallee(cl.Args[0], callee) {
+			st.callCounts["ca:"+cl.Loop+":"+cl.Args[0]] = 1
+		}
+	}
+}
+
+func (x *Exec) clearContinuesAfter(st *State, fr *Frame, loopRef string, at ssa.Instruction) {
+	for k := range st.callCounts {
+		if strings.HasPrefix(k, "ca:"+loopRef+":") {
+			// the iteration ended normally after the call: the obligation holds on this path
+			parts := strings.SplitN(k, ":", 3)
+			x.emit(st, fr, "F6", "loop"+parts[1]+".continues_after."+mangle(parts[2]), TTrue, at)
+			delete(st.callCounts, k)
+		}
+	}
+}
+
+func (x *Exec) checkContinuesAfter(st *State, fr *Frame, at ssa.Instruction) {
+	for k, v := range st.callCounts {
+		if v > 0 && strings.HasPrefix(k, "ca:") {
+			parts := strings.SplitN(k, ":", 3)
+			x.emit(st, fr, "F6", "loop"+parts[1]+".continues_after."+mangle(parts[2]), TFalse, at)
+		}
+	}
 }
